@@ -1578,9 +1578,10 @@ def kernel32_lstrcpyn(jitter):
                                              "mlen"])
     s2 = get_win_str_a(jitter, args.ptr_str2)
     if len(s2) >= args.mlen:
-        s2 = s2[:args.mlen - 1]
+        s2 = s2[:max(args.mlen - 1, 0)]
     log.info("Copy '%r'", s2)
-    set_win_str_a(jitter, args.ptr_str1, s2)
+    if args.mlen > 0:
+        set_win_str_a(jitter, args.ptr_str1, s2)
     jitter.func_ret_stdcall(ret_ad, args.ptr_str1)
 
 
